@@ -33,6 +33,7 @@ type config struct {
 	capacity        int  // >0: Capacity option; the model then also drives a second source
 	extraAmounts    []int64
 	c13only         bool // burst above 5 x average: outside the premise of C03's bound, explored for C13 only
+	nearRefill      bool // the alphabet also holds an idle gap just short of the burst's full refill (two tokens short)
 	magnitudes      bool // configurations of unusual magnitude: explored for C03 (both tiers) and, because the continuation probes multiply their cost, for C13 in the thorough tier only
 }
 
@@ -262,6 +263,10 @@ func alphabet(cfg config, tier string) ([]string, []opDesc) {
 	if len(cfg.rates) > 1 {
 		ds = append(ds, tpt(cfg.rates[1]), cfg.rates[1].period)
 	}
+	if cfg.nearRefill {
+		// idle for almost as long as the drained burst needs to refill: a source forgotten by then is handed a fresh burst
+		ds = append(ds, time.Duration(r0.burst-2)*t)
+	}
 	seenD := map[time.Duration]bool{}
 	for _, d := range ds {
 		if seenD[d] || d <= 0 {
@@ -489,6 +494,9 @@ func configs(tier string) []config {
 	out = append(out, config{name: "six-rates@0s", rates: []rateSpec{{S, 1, 1}, {10 * S, 2, 2}, {20 * S, 2, 2}, {30 * S, 2, 2}, {40 * S, 2, 2}, {50 * S, 2, 2}}, c13only: true})
 	// large magnitudes: an hourly quota of 36 million units (one token every 100 microseconds), requests of millions
 	out = append(out, config{name: "1h:36000000/36000000@0s", rates: []rateSpec{{3600 * S, 36_000_000, 36_000_000}}, extraAmounts: []int64{3_000_000, 9_000_000}, magnitudes: true})
+	// a fractional period just below two seconds with the deepest burst the documentation calls safe (5 x average): the
+	// remembered lifetime of an idle source (whole seconds) is at its tightest against the refill time (9.5s)
+	out = append(out, config{name: "1.9s:100/500@750ms", rates: []rateSpec{{1900 * time.Millisecond, 100, 500}}, phase: 750 * time.Millisecond, nearRefill: true, magnitudes: true})
 	out = append(out, config{name: "2s:1/2@300ms+Capacity(2)", rates: sets[4].rates, phase: 300 * time.Millisecond, capacity: 2})
 	return out
 }
@@ -546,6 +554,10 @@ func Run(tier string, sh lib.Shard, rep *lib.Report) {
 		runGrow(tier, sh, rep)
 		rep.Require("requests_after_the_rate_set_grew")
 	}
+	if rep.Property == "C13" {
+		runInPlace(tier, sh, rep)
+		rep.Require("requests_after_the_rate_set_was_changed_in_place", "advertised_delays_waited_out", "idle_refills_checked")
+	}
 	rep.Bounds["searches"] = results
 	rep.Nontrivial = rep.States
 	// keep only this property's violations
@@ -562,6 +574,9 @@ func Replay(rp map[string]any) (bool, string) {
 	name, _ := rp["config"].(string)
 	if name == "grow" {
 		return replayGrow(rp)
+	}
+	if name == "in-place" {
+		return replayInPlace(rp)
 	}
 	prop, _ := rp["property"].(string)
 	for _, tier := range []string{"quick", "thorough"} {
